@@ -1,6 +1,6 @@
 (* C20  Soundness of the record-automaton checker of model/LogRec.v: if `check` accepts a skeleton then, for
-   EVERY decision sequence, the events of the run are accepted by the automaton, a run that falls through ends in
-   the state the checker computed, and a run that leaves (return / continue / raise) does so in a state where
+   EVERY decision sequence, the events of the wrun are accepted by the automaton, a wrun that falls through ends in
+   the state the checker computed, and a wrun that leaves (return / continue / raise) does so in a state where
    that exit is allowed. *)
 From Coq Require Import String.
 From AQ Require Import lib.Base model.LogRec.
@@ -37,12 +37,12 @@ Proof.
   apply q_eqb_eq in E. subst. exact Hx.
 Qed.
 
-Definition post (D : dfa) (S' : list Q) (q' : Q) (o : outcome) : Prop :=
+Definition wpost (D : dfa) (S' : list Q) (q' : Q) (o : outcome) : Prop :=
   match o with Fall => In q' S' | Exited k => accept D q' k = true end.
 
 Theorem check_sound : forall D fuel s S S' q ds t ds' o,
-  check D s S = Some S' -> In q S -> run fuel s ds = Some (t, ds', o) ->
-  exists q', dfa_exec D q t = Some q' /\ post D S' q' o.
+  check D s S = Some S' -> In q S -> wrun fuel s ds = Some (t, ds', o) ->
+  exists q', dfa_exec D q t = Some q' /\ wpost D S' q' o.
 Proof.
   intros D. induction fuel as [|f IH]; intros s S S' q ds t ds' o Hc Hq Hr; [discriminate|].
   destruct s; simpl in Hr, Hc.
@@ -52,11 +52,11 @@ Proof.
     exists q1. simpl. rewrite E. split; [reflexivity|exact Hi].
   - (* WSeq *)
     destruct (check D s1 S) as [S1|] eqn:Hca; [|discriminate].
-    destruct (run f s1 ds) as [[[t1 ds1] o1]|] eqn:E1; [|discriminate].
+    destruct (wrun f s1 ds) as [[[t1 ds1] o1]|] eqn:E1; [|discriminate].
     destruct (IH _ _ _ _ _ _ _ _ Hca Hq E1) as (q1 & X1 & P1).
     destruct o1 as [|k].
     + simpl in P1.
-      destruct (run f s2 ds1) as [[[t2 ds2] o2]|] eqn:E2; [|discriminate]. inversion Hr; subst.
+      destruct (wrun f s2 ds1) as [[[t2 ds2] o2]|] eqn:E2; [|discriminate]. inversion Hr; subst.
       destruct (IH _ _ _ _ _ _ _ _ Hc P1 E2) as (q2 & X2 & P2).
       exists q2. rewrite dfa_exec_app, X1. split; assumption.
     + inversion Hr; subst. exists q1. split; [exact X1|exact P1].
@@ -71,11 +71,11 @@ Proof.
     destruct (check D s S) as [S1|] eqn:Hcb; [|discriminate].
     destruct (forallb (fun q => q_in q S) S1) eqn:Hin; [|discriminate]. inversion Hc; subst S'.
     destruct (next ds) as [d ds1]. destruct d.
-    + destruct (run f s ds1) as [[[t1 ds2] o1]|] eqn:E1; [|discriminate].
+    + destruct (wrun f s ds1) as [[[t1 ds2] o1]|] eqn:E1; [|discriminate].
       destruct (IH _ _ _ _ _ _ _ _ Hcb Hq E1) as (q1 & X1 & P1).
       destruct o1 as [|k].
       * simpl in P1. rewrite forallb_forall in Hin. pose proof (q_in_In _ _ (Hin _ P1)) as Hq1.
-        destruct (run f (WLoop s) ds2) as [[[t2 ds3] o2]|] eqn:E2; [|discriminate]. inversion Hr; subst.
+        destruct (wrun f (WLoop s) ds2) as [[[t2 ds3] o2]|] eqn:E2; [|discriminate]. inversion Hr; subst.
         assert (Hc' : check D (WLoop s) S = Some S).
         { simpl. rewrite Hcb. rewrite (proj2 (forallb_forall _ _) Hin). reflexivity. }
         destruct (IH (WLoop s) S S q1 _ _ _ _ Hc' Hq1 E2) as (q2 & X2 & P2).
@@ -86,9 +86,9 @@ Proof.
     inversion Hc; subst. exists q. split; [reflexivity|]. simpl. rewrite forallb_forall in E. apply E. exact Hq.
 Qed.
 
-(* a unit that passes unit_ok: every complete run is accepted and ends / leaves in an allowed state *)
+(* a unit that passes unit_ok: every complete wrun is accepted and ends / leaves in an allowed state *)
 Theorem unit_sound : forall D q0 s, unit_ok D q0 s = true ->
-  forall fuel ds t ds' o, run fuel s ds = Some (t, ds', o) ->
+  forall fuel ds t ds' o, wrun fuel s ds = Some (t, ds', o) ->
   exists q', dfa_exec D q0 t = Some q' /\ accept D q' (match o with Fall => "end" | Exited k => k end) = true.
 Proof.
   intros D q0 s H fuel ds t ds' o Hr. unfold unit_ok in H.
